@@ -27,6 +27,13 @@ def check_tx(spec, ctx):
     chunk = spec.get("chunk") if g else None
     cst = spec.get("chunk_strand", "+") if chunk else "+"
     parent = (chunk_parent(g, chunk[0], chunk[1], strand=cst, idiom=spec.get("chunk_idiom", "api")) if chunk else chrom_parent(g)) if g else None
+    if g and not chunk and spec.get("untyped_parent"):
+        # a parent that carries the sequence and a name but no sequence type (the idiom of the library's own docstrings and tests)
+        from inscripta.biocantor.parent import Parent as _P
+        from inscripta.biocantor.sequence import Sequence as _S
+        from inscripta.biocantor.sequence.alphabet import Alphabet as _A
+        parent = _P(id="chr1", sequence=_S(g, _A.NT_EXTENDED_GAPPED, id="chr1"))
+        ctx.label("parent_without_sequence_type")
     if chunk and cst == "-":
         ctx.label("minus_strand_chunk")
     if chunk and spec.get("chunk_idiom") == "docstring":
@@ -298,6 +305,7 @@ def strat_tx(draw, tier="quick"):
     if draw(st.booleans()):
         hi = sp["exons"][-1][1]
         sp["genome"] = draw(S.dna(hi + 2, hi + 2))
+        sp["untyped_parent"] = draw(st.integers(0, 4)) == 0
         if draw(st.integers(0, 2)) == 0:
             # seen through a sequence chunk that contains, cuts or misses the transcript
             a = draw(st.integers(0, hi + 1))
